@@ -23,7 +23,7 @@ ALL_DEVS = ["FirstFromOnly"]
 CFG = """SPECIFICATION %(spec)s
 CONSTANTS
   Devs = {%(devs)s}
-  Families = {"A", "B", "C", "D", "E", "F", "G", "H"}
+  Families = {"A", "B", "C", "D", "E", "F", "G", "H", "I"}
   Gen = %(gen)s
 %(tail)s
 """
@@ -37,12 +37,20 @@ def stratum(r):
     f = r["from"]
     if r["fam"] == "C":
         return ("C", r["tbl"], r["auth"]["a"], r["sasl"]["mech"], r["sasl"]["az"], r["nb"], r["chk"], r["mf"]["a"])
+    if r["fam"] == "I":
+        return ("I", r["tbl"], r["norm"], r["anorm"], r["auth"]["a"])
     return (r["fam"], r["tbl"], r["norm"], r["auth"]["a"], f["layout"], f["style"] if f["layout"] == "one" else "")
 
 
 def directable(r):
     """rows the check module alone can be asked: no SASL exchange, no neighbour check"""
     return r["sasl"] == {"mech": "PLAIN", "az": "empty"} and r["nb"] == "absent"
+
+
+def endpointable(r):
+    """account W (the case twin of U's name, family I) exists for the check only: the endpoint's credential
+    store is keyed by folded names (auth_map_normalize auto), where W and U are one login"""
+    return r["auth"]["a"] != "W"
 
 
 def stratified(rng, rows, n):
@@ -79,7 +87,7 @@ def nontrivial(r):
     xs = [r["mf"]["a"]] + ([f["x"]["a"]] if f["x"]["a"] != "-" else []) + ([f["y"]["a"]] if f["y"]["a"] != "-" else [])
     return r["auth"]["a"] == "none" or any(x != own for x in xs) or r["sender"]["a"] != "-" or \
         any(it["v"] != "plain" for it in (r["auth"], r["mf"], f["x"])) or not r["chk"] or \
-        r["sasl"]["az"] != "empty" or r["nb"] not in ("absent", "none") or r["act"] != "default" or r["fam"] in "EFGH"
+        r["sasl"]["az"] != "empty" or r["nb"] not in ("absent", "none") or r["act"] != "default" or r["fam"] in "EFGHI"
 
 
 def run(ctx, replay):
@@ -132,6 +140,10 @@ def run(ctx, replay):
         rows_ab = [x for x in rows if x["fam"] in ("A", "B")]
         rows_def = [x for x in rows if x["fam"] in ("D", "E", "F", "G", "H")]   # small families: always run completely
         rows_c = [x for x in rows if x["fam"] == "C"]
+        # family I (auth_normalize x from_normalize): the check on every row, the endpoint on a sample that has
+        # every (table, from_normalize, auth_normalize, user) combination several times
+        rows_i = [x for x in rows if x["fam"] == "I"]
+        rows_ie = [x for x in rows_i if endpointable(x)]
         rows_own = [x for x in rows_ab if own_mf(x)]
         rows_oth = [x for x in rows_ab if not own_mf(x)]
 
@@ -141,8 +153,9 @@ def run(ctx, replay):
         # check_header, envelope sender) combination at least
         c_direct = [x for x in rows_c if directable(x)]
         direct = [x for x in rows if directable(x)] if thorough else \
-            sample(7000) + stratified(ctx.rng, c_direct, 1200) + [x for x in rows_def if directable(x)]
-        e2e = rows if thorough else sample(1000) + stratified(ctx.rng, rows_c, 2600) + rows_def
+            sample(7000) + stratified(ctx.rng, c_direct, 1200) + [x for x in rows_def if directable(x)] + rows_i
+        e2e = [x for x in rows if endpointable(x)] if thorough else \
+            sample(1000) + stratified(ctx.rng, rows_c, 2600) + rows_def + stratified(ctx.rng, rows_ie, 1200)
         items = [{"via": "direct", "in": x} for x in direct] + [{"via": "endpoint", "in": x} for x in e2e]
         for i, it in enumerate(items):
             it["id"] = i + 1
@@ -257,7 +270,8 @@ def run(ctx, replay):
                        "sender x every normalisation; F: table.chain mappings; G: addresses that differ from an entitled one by an IDNA "
                        "deviation character (sharp s, final sigma, ZWNJ) as envelope sender / From / Sender x every normalisation; "
                        "H: user_to_email / prepare_email in a table.file that is edited (revoke, delete line, replace, grant, rewrite) "
-                       "and reloaded between two messages; family A also has four layouts with a repeated From field whose later "
+                       "and reloaded between two messages; I: auth_normalize and from_normalize set independently (all 49 pairs) over a mapping "
+                       "with case twins as distinct accounts / addresses and the ToLower-only twin; family A also has four layouts with a repeated From field whose later "
                        "instance lists further mailboxes); thorough runs every row through the endpoint and the SASL/neighbour-free ones on the check, "
                        "quick a stratified seeded sample of both; non-trivial = unauthenticated, or some address other "
                        "than the user's own, or a Sender, or a non-canonical spelling")
@@ -275,6 +289,9 @@ def run(ctx, replay):
         "where the operator configured a quarantine action, a delivery carrying the quarantine flag counts as the refusal; "
         "with check_header no only the envelope clause is demanded",
         "the authenticated user of a row is the account whose password the client presented (SASL authentication identity)",
+        "where from_normalize keeps the case of local parts (noop, precis, precis_email) and the mapping lists zoe@ and ZOE@ "
+        "for different users, they are two addresses; an account named ZOE@ is an account of its own where auth_normalize "
+        "keeps the case (family I only; rows through the check, the endpoint's credential store folds names)",
         "neighbour check = harness/scripted check.verif_scripted in the same check block, failing at sender and body stage",
         "endpoint rows: credentials in auth.pass_table (bcrypt cost 4, one password per account), auth_map_normalize auto, real PLAIN/LOGIN exchanges",
         "TLC, CommunityModules Json reader, go1.26 toolchain",
@@ -293,7 +310,7 @@ META = {
             "authorization identity, a quarantining/rejecting neighbour check, action directives with custom SMTP replies, "
             "mailboxes that only strings.ToLower confuses (U+0130) after an entitled envelope sender, table.chain mappings, "
             "IDNA deviation-character twins of an entitled address, a table.file mapping edited and reloaded between two "
-            "messages, repeated From fields whose later instance lists further mailboxes) "
+            "messages, auth_normalize and from_normalize set independently (49 pairs) over case-twin accounts and addresses, repeated From fields whose later instance lists further mailboxes) "
             "and checks Rule against Prop on each; thorough "
             "runs every row through the real endpoint and every row without SASL/neighbour dimension on the check alone, "
             "quick a stratified seeded sample (about 10,400 + 6,600, the small families completely); TLC evaluates "
